@@ -55,7 +55,12 @@ def check_constructions(ctx, R="R-1"):
     for f, bi, fields in ctors:
         od = fields.get("original_data")
         hd = fields.get("header")
-        if f.key == WIRE_CTOR:
+        if f.key == WIRE_CTOR and od == ("aggr", "core::option::Option", "None", ()) and len([c for c in ctors if c[0].key == WIRE_CTOR]) > 1:
+            # `ProtectedHeader { original_data: Some(data), ..Self::from_header(h) }`: the base of a struct-update expression is a
+            # temporary built without bytes; the construction that carries them is judged on its own (and must exist, below)
+            ok = any(c[2].get("original_data", ("?",))[0] == "aggr" and c[2]["original_data"][2] == "Some" for c in ctors if c[0].key == WIRE_CTOR)
+            what = "a temporary without wire bytes inside the wire constructor, next to the construction that stores them"
+        elif f.key == WIRE_CTOR:
             from lib.prov import strip_sites
             ok = od is not None and od[0] == "aggr" and od[2] == "Some" and bool(od[3]) \
                 and strip_sites(od[3][0][1]) == ("tryok", ("call", codec.TRY_BYTES, (("param", 0),)))
